@@ -717,3 +717,28 @@ def battery_after_inconclusive(prop, obs):
             return [Ob(f'{build}: native battery after an inconclusive solver verdict: {hit["what"]}', 'violated', f'expected {str(hit["expected"])[:120]}, native {str(hit["got"])[:120]}', 0,
                        'native differential replay (python reference)', None, {'kind': 'battery', 'build': build, 'replay': path, 'native': {k: hit[k] for k in ('cmd', 'expected', 'got', 'what')}})]
     return []
+
+
+def battery_always(prop):
+    """the native battery of a property on both builds, run after a fully discharged symbolic run; [] or one violated Ob with a replay"""
+    import inspect, time
+    from .common import Ob
+    bat = BATTERIES.get(prop)
+    if bat is None: return []
+    out = []
+    for build in ('ark', 'min'):
+        if prop in ('C13', 'C14', 'C15', 'C16') and build == 'min': continue
+        t0 = time.time()
+        cases = bat(build, []) if len(inspect.signature(bat).parameters) > 1 else bat(build)
+        if prop == 'C14':
+            # the scenarios of the recorded known finding (isqrt / decode with den = 0 and the hint (true, +-1)) are reported by the symbolic check under its key
+            cases = [c for c in cases if not re.match(r'^r1cs:(isqrt|decode),[0-9a-f]{64},hint=1:', c[0])]
+        if not cases: continue
+        hit = run_cases(build, cases, 'dev')
+        if hit:
+            hit['property'] = prop; hit['symbolic_candidates'] = []
+            path = replay.write_replay(prop, hit)
+            return [Ob(f'{build}: native battery (differential safety net after a fully discharged symbolic run): {hit["what"]}', 'violated', f'expected {str(hit["expected"])[:120]}, native {str(hit["got"])[:120]}', time.time() - t0,
+                       'native differential replay (python reference)', None, {'kind': 'battery', 'build': build, 'replay': path, 'native': {k: hit[k] for k in ('cmd', 'expected', 'got', 'what')}})]
+        out.append(Ob(f'{build}: native battery of {len(cases)} scenarios agrees with the reference (safety net, not a solver verdict)', 'proved', '', time.time() - t0, 'native differential replay (python reference)', {'scenarios': len(cases)}))
+    return out
